@@ -11,7 +11,9 @@ BOUNDS = ("(a) every statement shape of C01 (+ data directives): emitted byte co
           "symbolic RMB gaps: listing address of every statement == origin + bytes emitted before it, every label == "
           "that address, every EQU == its value, reported origin == o; (c) the same templates with concrete gaps and "
           "symbolic operands: image == in-order concatenation; (d) duplicate label / undefined symbol rejected; "
-          "later ORG / code before ORG rejected or consistent")
+          "a later ORG (gap 0,1,2,7,200 bytes; backward) and code before the ORG: rejected, or every statement's bytes lie "
+          "at (listing address - reported origin) in the image and nothing lies in front of the first / behind the last; "
+          "two ORGs with only NAM/EQU/SETDP between them; single-operand data directives: size <= max_size")
 OUTSIDE = "programs longer than 12 statements / more than 3 symbolic gaps; address wrap past $FFFF is assumed away"
 ASSUMPTIONS = []
 
